@@ -211,6 +211,8 @@ def gen_case_c03(rng):
             ops.append([o, {'kwa': enc(value_pool(b, rng, u))}])
         elif o in ('popkeys', 'popkeysd'):
             ks = rng.sample(keys, min(len(keys), rng.choice([1, 2])))
+            if rng.random() < 0.3:
+                ks.append(rng.choice(ks))       # the same key named twice: all-or-nothing still applies
             ops.append([o, [enc(x) for x in ks]])
         elif o == 'badset':
             ops.append([o, enc(k)])
